@@ -803,7 +803,8 @@ class CompartmentalSystem(Statement):
         return hash((self._t, nodes, edges))
 
     def to_dict(self) -> dict[str, Any]:
-        comps = [comp for comp in self._g.nodes]
+        # canonical order (independent of the order in which the graph was built): compartments by name, output last
+        comps = sorted(self._g.nodes, key=lambda comp: (isinstance(comp, Output), getattr(comp, 'name', '')))
         comps_dicts = tuple(comp.to_dict() for comp in comps)
 
         edges = []
@@ -812,6 +813,7 @@ class CompartmentalSystem(Statement):
             to_n = comps.index(to_comp)
             edge = (from_n, to_n, rate.serialize())
             edges.append(edge)
+        edges.sort(key=lambda edge: (edge[0], edge[1]))
 
         d = {
             'class': 'CompartmentalSystem',
